@@ -40,13 +40,14 @@ fn main_with(decls: &str, extra_funcs: &str, body: &str) -> String {
     format!("{}{}void main()\n{{\n{}\n}}\n", decls, extra_funcs, body)
 }
 
-pub const CONDS: [&str; 48] = [
+pub const CONDS: [&str; 53] = [
     "a", "!a", "a == 0", "a != 0", "a == b", "a != b", "a < b", "a <= b", "a > b", "a >= b", "a < 3", "a <= 3", "a > 3", "a >= 3", "a > 0", "3 < a", "X", "!X", "X < 2", "X == 1", "Y != 0", "Y", "a && b", "a || b",
     "a && !b", "a || !b", "!(a && b)", "a == 1 || b == 2", "a < b && b < c", "a == 1 && b == 2 && c == 0", "a || b || c", "s", "s == 0", "s != 0", "s < t", "s == t", "s != t", "u > 0x100", "arr[X]", "arr[X] == 0x80", "tab[Y] != 1", "a & 1",
     "a & 0x80", "(a & 3) == 1", "a + b", "a - b", "f()", "f() == 2",
+    "s > 1000 && (a || b)", "s > 1000 && t != 2000", "s <= 1000 || a", "u > 0x100 && (a || b)", "s != t && (a || b) && u <= 0x100",
 ];
 
-pub const CONDS_QUICK: [&str; 22] = ["a", "!a", "a == 0", "a != b", "a < b", "a <= 3", "a > 3", "a >= b", "X", "X < 2", "Y != 0", "a && b", "a || !b", "a == 1 || b == 2", "s", "s == 0", "s < t", "arr[X]", "a & 1", "(a & 3) == 1", "a - b", "f()"];
+pub const CONDS_QUICK: [&str; 24] = ["a", "!a", "a == 0", "a != b", "a < b", "a <= 3", "a > 3", "a >= b", "X", "X < 2", "Y != 0", "a && b", "a || !b", "a == 1 || b == 2", "s", "s == 0", "s < t", "arr[X]", "a & 1", "(a & 3) == 1", "a - b", "f()", "s > 1000 && (a || b)", "s > 1000 && t != 2000"];
 
 pub const SIMPLE: [&str; 9] = ["r = 1;", "r++;", "r = a;", "r = r + b;", "{ b = a; c = 2; }", "X++;", "arr[X] = 5;", "s = 300;", "g();"];
 
@@ -364,7 +365,7 @@ pub fn f3(tier: Tier, with_inline_subsets: bool) -> Vec<(SemCase, Vec<String>, u
 // ---------------------------------------------------------------------------------------
 // F4.seq
 
-pub const SEQ_ALPHABET: [&str; 55] = [
+pub const SEQ_ALPHABET: [&str; 58] = [
     "a = 0;",
     "a = 1;",
     "a = b;",
@@ -410,6 +411,9 @@ pub const SEQ_ALPHABET: [&str; 55] = [
     "b = arr[X];",
     "if (X == 1) X++;",
     "s--;",
+    "if (X == 1) { X++; if (X == 1) r = 3; }",
+    "if (Y == 2) { Y--; if (Y == 2) r = 4; }",
+    "if (a == 5) { a++; if (a == 5) r = 1; else r = 2; }",
     // the following are not C-observable (excluded from reference comparison, kept for the differential checks)
     "load(a);",
     "store(a);",
@@ -423,7 +427,7 @@ pub const SEQ_ALPHABET: [&str; 55] = [
     "asm(\"NOP\", 1);",
 ];
 
-pub const SEQ_C_OBSERVABLE: usize = 45;
+pub const SEQ_C_OBSERVABLE: usize = 48;
 pub const SEQ_DECL: &str = "unsigned char a, b, c, r; short s; unsigned char arr[4]; char *p; char *const REG = 0x3e;\nvoid f() { c = c + 1; }\n";
 
 pub fn f4_indices(tier: Tier, alphabet_len: usize) -> Vec<Vec<usize>> {
@@ -437,7 +441,7 @@ pub fn f4_indices(tier: Tier, alphabet_len: usize) -> Vec<Vec<usize>> {
         }
     }
     let core: Vec<usize> = match tier {
-        Tier::Quick => (0..alphabet_len).filter(|k| [0, 2, 4, 5, 8, 10, 12, 15, 16, 21, 24, 25, 26, 28, 29, 31, 32, 33, 35, 46, 48, 50, 52, 53].contains(k)).collect(),
+        Tier::Quick => (0..alphabet_len).filter(|k| [0, 2, 4, 5, 8, 10, 12, 15, 16, 21, 24, 25, 26, 28, 29, 31, 32, 33, 35, 49, 51, 53, 55, 56, 45].contains(k)).collect(),
         Tier::Thorough => (0..alphabet_len).collect(),
     };
     for i in &core {
@@ -449,7 +453,7 @@ pub fn f4_indices(tier: Tier, alphabet_len: usize) -> Vec<Vec<usize>> {
     }
     if tier == Tier::Quick {
         // the optimiser and the generator treat X and Y in separate (copied) code: a second core built around Y
-        let core_y: Vec<usize> = [2usize, 3, 6, 7, 9, 10, 11, 17, 18, 27, 30, 34, 36, 37, 38, 39, 40, 41, 42, 43, 44].iter().cloned().filter(|k| *k < alphabet_len).collect();
+        let core_y: Vec<usize> = [2usize, 3, 6, 7, 9, 10, 11, 17, 18, 27, 30, 34, 36, 37, 38, 39, 40, 41, 42, 43, 44, 46, 47].iter().cloned().filter(|k| *k < alphabet_len).collect();
         for i in &core_y {
             for j in &core_y {
                 for k in &core_y {
